@@ -14,6 +14,16 @@ func addSQLFeatures(g *gen) {
 			}
 		}
 		s.Fields = kept
+		// sqlcrud needs named types for array / jsonb columns (it implements sql.Valuer on them):
+		// most anonymous containers become named declarations
+		for k := range s.Fields {
+			f := &s.Fields[k]
+			if (f.T.K == "slice" || f.T.K == "array" || f.T.K == "map") && !(f.T.K == "slice" && f.T.E.K == "basic" && f.T.E.B == "byte") && g.chance(0.85) {
+				name := g.uniq("C")
+				g.lists = append(g.lists, &Decl{Kind: "named", Name: name, Under: f.T})
+				f.T = Ref("", name)
+			}
+		}
 		// id field, in various spellings
 		idName := pick(g.rng, []string{"Id", "ID", "Id", "Id"})
 		idType := Basic("int64")
